@@ -276,12 +276,16 @@ func cmdTracerPair(args []string) error {
 // them undefined (0x5c/0x5d/0x5e are TLOAD/TSTORE/MCOPY in Artela's name table, 0xb3/0xb4 TLOAD/TSTORE in go-ethereum's)
 var renumberedOpName = regexp.MustCompile(`"op":"(TLOAD|TSTORE|MCOPY|opcode 0x(5c|5d|5e|b3|b4) not defined)"`)
 
-var renumberedOpText = regexp.MustCompile(`(?m)(^|\| *\d+ *\| *)(TLOAD|TSTORE|MCOPY|opcode 0x(5c|5d|5e|b3|b4) not defined)\b`)
+var renumberedOpText = regexp.MustCompile(`(?m)^(TLOAD|TSTORE|MCOPY|opcode 0x(5c|5d|5e|b3|b4) not defined) *pc=`)
+var renumberedOpArg = regexp.MustCompile(`op=(TLOAD|TSTORE|MCOPY|opcode 0x(5c|5d|5e|b3|b4) not defined)`)
+var renumberedOpCell = regexp.MustCompile(`\| *(TLOAD|TSTORE|MCOPY|opcode 0x(5c|5d|5e|b3|b4) not defined) *\|`)
 
-// normTraceText: the same normalisation for the text dumps (WriteTrace lines start with the opcode name, the markdown
-// logger has it in the second column)
+// normTraceText: the same normalisation for the text dumps.  WriteTrace lines start with the opcode name padded to 16
+// columns (longer names are not padded at all), the markdown logger right-aligns it in a cell of 10: the padding goes too.
 func normTraceText(s string) string {
-	s = renumberedOpText.ReplaceAllString(s, "$1<renumbered opcode byte>")
+	s = renumberedOpText.ReplaceAllString(s, "<renumbered opcode byte> pc=")
+	s = renumberedOpCell.ReplaceAllString(s, "| <renumbered opcode byte> |")
+	s = renumberedOpArg.ReplaceAllString(s, "op=<renumbered opcode byte>")
 	// WriteTrace prints the storage map of a step by ranging over it (Go map order, in both code bases): sort each run
 	lines := strings.Split(s, "\n")
 	for i := 0; i < len(lines); {
